@@ -35,7 +35,9 @@ def render(n, c):
     elif d["k"] == "disable_i":
         iattr = "    #[diplomat::attr(%s, disable)]\n" % d["b"]
     ind = lambda s, k: "".join(" " * k + l + "\n" for l in s.splitlines())
-    return ("#[diplomat::bridge]\n" + pat_attr(c["pm"], n) + "pub mod p%d {\n" % n +
+    # other attributes may stand in FRONT of #[diplomat::bridge] (a doc comment, a lint attribute): the module is a bridge all the same
+    front = ["", "/// Bindings of module %d.\n" % n, "#[allow(unused)]\n"][n % 3]
+    return (front + "#[diplomat::bridge]\n" + pat_attr(c["pm"], n) + "pub mod p%d {\n" % n +
             # the opaque type is a struct or (odd n) an enum: the two are parsed by different constructors
             ind(pat_attr(c["pt"], n), 4) + tattr + ("    #[diplomat::opaque]\n    pub struct T%d(pub u8);\n" % n if n % 2 == 0 else
                                                    "    #[diplomat::opaque]\n    pub enum T%d {\n        A,\n        B,\n    }\n" % n) +
